@@ -252,7 +252,15 @@ impl<T, Ptr: PointerFamily> MetaSlotMap<T, Ptr> {
             return;
         }
 
+        // the key is already in use, therefore it is no longer part of the free list
+        if self.idx_to_data[idx] != INVALID {
+            return;
+        }
+
         let entry = self.idx_to_data_free_list[idx];
+        if self.idx_to_data_free_list_head == idx {
+            self.idx_to_data_free_list_head = entry.next;
+        }
         if entry.previous != INVALID {
             self.idx_to_data_free_list[entry.previous].next = entry.next;
         }
